@@ -247,9 +247,19 @@ Fixpoint delete_walk (fuel : nat) (script sub : bytes) (pc : nat) : outcome byte
          end
        end.
 
-(* _delete_signature(script, sig_blob): subscript = compile_push_data_list([sig_blob]) *)
+(* the pattern of _delete_signature: the PLAIN push of the blob (length prefix, no OP_n / OP_1NEGATE short forms);
+   size.to_bytes(4, "little") raises OverflowError from 2^32 on *)
+Definition plain_push (blob : bytes) : outcome bytes :=
+  let size := N.of_nat (length blob) in
+  if (size <? 76)%N then Ret (n2b size :: blob)
+  else if (size <=? 255)%N then Ret (x4c :: n2b size :: blob)
+  else if (size <=? 65535)%N then Ret (x4d :: le_encode 2 size ++ blob)
+  else if (size <? 4294967296)%N then Ret (x4e :: le_encode 4 size ++ blob)
+  else Raise E_OVERFLOW.
+
+(* _delete_signature(script, sig_blob): subscript = prefix + sig_blob, then the get_opcodes walk *)
 Definition delete_signature (script sig_blob : bytes) : outcome bytes :=
-  match btc_compile_push_data sig_blob with
+  match plain_push sig_blob with
   | Ret sub => delete_walk (length script) script sub 0
   | Raise e => Raise e
   | OutOfFuel => OutOfFuel
